@@ -484,10 +484,10 @@ impl Env {
         }
         if self.fr().unwrap().event.is_hup() {
             let r = self.front_hup();
-            if r == SessionResult::Continue {
-                self.fr().unwrap().event.remove(Ready::HUP);
+            if r != SessionResult::Continue {
+                return r;
             }
-            return r;
+            self.fr().unwrap().event.remove(Ready::HUP);
         }
         let mut counter = 0;
         while counter < 100000 {
@@ -731,25 +731,48 @@ impl Env {
             }
             _ => &self.back_got,
         };
+        // bytes dropped although their destination had not closed anything: the property's core.
+        // bytes dropped because the DESTINATION had half-closed (its end-of-stream is taken for a full
+        // close of the connection): a separate, narrower class.
         if !self.peer_closed && got_b.len() < expect_b.len() && expect_b.starts_with(got_b) {
-            out.viol(
-                "eof-before-drain",
-                &format!(
-                    "session closed (client eof={} backend eof={}) with {} byte(s) sent by the client never written to the backend (mode {})",
-                    self.front_eof, self.peer_eof, expect_b.len() - got_b.len(), self.mode
-                ),
-            );
+            if self.peer_eof {
+                out.viol(
+                    "halfclose-cuts-reverse",
+                    &format!(
+                        "the backend half-closed and the session was closed with {} byte(s) of the client's stream undelivered (client eof={}, mode {})",
+                        expect_b.len() - got_b.len(), self.front_eof, self.mode
+                    ),
+                );
+            } else {
+                out.viol(
+                    "eof-before-drain",
+                    &format!(
+                        "session closed (client eof={} backend eof={}) with {} byte(s) sent by the client never written to the backend (mode {})",
+                        self.front_eof, self.peer_eof, expect_b.len() - got_b.len(), self.mode
+                    ),
+                );
+            }
         }
         // back -> front
         let back_taken = if self.peer_eof { self.back_written.len() } else { back_taken };
         if !self.peer_closed && !s.wclosed && s.out.len() < back_taken {
-            out.viol(
-                "eof-before-drain",
-                &format!(
-                    "session closed (client eof={} backend eof={}) with {} byte(s) sent by the backend never written to the client (mode {})",
-                    self.front_eof, self.peer_eof, back_taken - s.out.len(), self.mode
-                ),
-            );
+            if self.front_eof {
+                out.viol(
+                    "halfclose-cuts-reverse",
+                    &format!(
+                        "the client half-closed and the session was closed with {} byte(s) of the backend's stream undelivered (backend eof={}, mode {})",
+                        back_taken - s.out.len(), self.peer_eof, self.mode
+                    ),
+                );
+            } else {
+                out.viol(
+                    "eof-before-drain",
+                    &format!(
+                        "session closed (client eof={} backend eof={}) with {} byte(s) sent by the backend never written to the client (mode {})",
+                        self.front_eof, self.peer_eof, back_taken - s.out.len(), self.mode
+                    ),
+                );
+            }
         }
     }
 
